@@ -401,7 +401,7 @@ def run_property(pid, tier, seed, replay=None):
             chk = spec.get("known_check")
             still = chk(o, ctx, k) if chk and okc else True
             if still:
-                print(f"KNOWN-FINDING: property={pid} {k['text']}")
+                print(f"KNOWN-FINDING: {k['text']}")
                 o.known_hits.append(k.get("id", "?"))
             else:
                 o.notes.append(f"known finding {k.get('id')} no longer reproduces (remove it from known_findings.txt)")
